@@ -90,8 +90,8 @@ def results(fit, canon):
     fit.do_fit()
     names = list(fit.parameter_names)
     idx = [names.index(n) for n in canon]
-    pv = np.asarray(fit.parameter_values, dtype=float)[idx]
-    pe = np.asarray(fit.parameter_errors, dtype=float)[idx]
+    pv = np.array(fit.parameter_values, dtype=float)[idx]
+    pe = np.array(fit.parameter_errors, dtype=float)[idx]
     pc = np.asarray(fit.parameter_cov_mat, dtype=float)[np.ix_(idx, idx)]
     logdet = float(fit._nexus.get("total_cov_mat_log_determinant").value)
     return dict(pv=pv, pe=pe, pc=pc, cost=float(fit.cost_function_value), chi2=float(fit.cost_function_value) - logdet,
